@@ -456,16 +456,16 @@ bool dtoa_fixed(double val, char decimal_point, Result& result, std::false_type)
     }
     if (x != val)
     {
-        const int precision2 = std::numeric_limits<double>::max_digits10;
-        length = snprintf(buffer, sizeof(buffer), "%1.*f", precision2, val);
-        if (length < 0)
+        // "%f" counts digits after the decimal point: to get the 17 significant digits that
+        // identify a double, the zeros between the decimal point and the first significant
+        // digit have to be added when |val| < 1
+        int precision2 = std::numeric_limits<double>::max_digits10;
+        const double a = std::fabs(val);
+        if (a < 1.0)
         {
-            return false;
+            precision2 -= static_cast<int>(std::floor(std::log10(a)));
         }
-        if (static_cast<std::size_t>(length) >= sizeof(buffer))
-        {
-            return dump_formatted("%1.*f", precision2, val, decimal_point, result);
-        }
+        return dump_formatted("%1.*f", precision2, val, decimal_point, result);
     }
     dump_buffer(buffer, length, decimal_point, result);
     return true;
